@@ -2,7 +2,7 @@
     (proxy/grpc_handler.go, main.go:167-188).  Statements, [exact], [Print Assumptions] only.
     Histories: [Call md path k | SetTable t | CleanupTick | ConnShutdown u] from any state. *)
 From Coq Require Import String List NArith Bool.
-From Fabio Require Import Lib.Outcome Lib.Bytes Model.GrpcPool Proofs.GrpcPool.
+From Fabio Require Import Lib.Outcome Lib.Bytes Model.GrpcPool Proofs.GrpcPool Model.GrpcTransport Proofs.GrpcTransport.
 From Fabio Require Model.Lookup Proofs.Lookup.
 Import ListNotations.
 Local Open Scope N_scope.
@@ -356,3 +356,96 @@ Theorem C16_routed_call_reaches_backend_on_domain : forall tl down t ng ci p ts 
   call_result tl down t ng ci k = (Some u, sc_code (ci_script ci)).
 Proof. exact routed_call_reaches_backend. Qed.
 Print Assumptions C16_routed_call_reaches_backend_on_domain.
+
+(* ---- backends that lose their connections (Model/GrpcTransport.v) ----
+   A pooled *grpc.ClientConn is a channel: it holds at most one transport to its backend; when
+   the transport is lost (backend restarted on the same address, GOAWAY at MaxConnectionAge,
+   reset) the channel goes Idle, not Shutdown, stays pooled, and the next call connects again.
+   Histories: [XOp o] (an operation of the machine above) | [XLose u] (every transport leading
+   to backend u is lost), from any state that satisfies the invariant [xinv] -- every state
+   reached from the empty pool does.  [un u]: nobody answers at u. *)
+Theorem C16_transport_invariant_reachable : forall ng un t ops, xinv (xrun ng un (x_init t) ops).
+Proof. exact x_reachable_inv. Qed.
+Print Assumptions C16_transport_invariant_reachable.
+
+(* A transport loss is invisible to the pool: the table/pool component of a history with losses
+   is the history of its pool operations.  Every theorem above about [run] therefore holds with
+   any number of losses of any backend interleaved ... *)
+Theorem C16_transport_loss_invisible_to_pool : forall ng un ops xs,
+  x_st (xrun ng un xs ops) = run ng (x_st xs) (xproj ops).
+Proof. exact xrun_st. Qed.
+Print Assumptions C16_transport_loss_invisible_to_pool.
+
+(* ... in particular: calls for one backend are served on ONE channel, and nothing is dialled
+   for it, however often its transport is lost in between (reuse per backend). *)
+Theorem C16_one_channel_across_transport_losses : forall ng un xs m p k u c ops m' p' k' c',
+  wf (s_pool (x_st xs)) ->
+  call_conn ng (x_st xs) m p k = Some (u, c) ->
+  undisturbed ng u (step ng (x_st xs) (Call m p k)) (xproj ops) ->
+  let xs' := xrun ng un (xstep ng un xs (XOp (Call m p k))) ops in
+  call_conn ng (x_st xs') m' p' k' = Some (u, c') ->
+  c' = c /\
+  count_dials (s_pool (x_st xs')) u = count_dials (s_pool (step ng (x_st xs) (Call m p k))) u.
+Proof. exact one_channel_across_losses. Qed.
+Print Assumptions C16_one_channel_across_transport_losses.
+
+(* A routed call is forwarded to its backend whatever was lost before: after the call, the live
+   channel pooled for the backend holds a transport to that backend (the backend answers). *)
+Theorem C16_routed_call_served_after_transport_loss : forall ng un xs m p k u c,
+  xinv xs -> call_conn ng (x_st xs) m p k = Some (u, c) -> un u = false ->
+  let xs' := xstep ng un xs (XOp (Call m p k)) in
+  In (c, u) (x_up xs') /\ holds (s_pool (x_st xs')) u c.
+Proof. exact call_has_transport. Qed.
+Print Assumptions C16_routed_call_served_after_transport_loss.
+
+(* What the backends see.  At every moment of every history a backend has at most one
+   connection from the proxy open: begun - ended is 0 or 1. *)
+Theorem C16_one_transport_per_backend : forall ng un t ops u,
+  let xs := xrun ng un (x_init t) ops in
+  x_ended_at xs u <= x_begun_at xs u <= x_ended_at xs u + 1.
+Proof. exact one_transport_per_backend. Qed.
+Print Assumptions C16_one_transport_per_backend.
+
+(* A call that reaches backend u opens exactly one connection there if u has none at that moment
+   (first call, or its connection was lost), none otherwise; it ends none; nobody else sees anything. *)
+Theorem C16_call_connects_exactly_when_needed : forall ng un xs m p k u c, xinv xs ->
+  call_conn ng (x_st xs) m p k = Some (u, c) -> un u = false ->
+  let xs' := xstep ng un xs (XOp (Call m p k)) in
+  x_begun_at xs' u = (if x_ended_at xs u <? x_begun_at xs u then x_begun_at xs u else x_begun_at xs u + 1) /\
+  (forall v, x_ended_at xs' v = x_ended_at xs v) /\
+  forall v, v <> u -> x_begun_at xs' v = x_begun_at xs v.
+Proof. exact call_counts. Qed.
+Print Assumptions C16_call_connects_exactly_when_needed.
+
+(* The loss itself: every connection the backend had has ended, none is opened by it, nobody
+   else is affected -- and the pool is as it was (C16_transport_loss_invisible_to_pool). *)
+Theorem C16_transport_loss_counts : forall xs u, xinv xs ->
+  let xs' := x_lose xs u in
+  x_ended_at xs' u = x_begun_at xs u /\ x_begun_at xs' u = x_begun_at xs u /\
+  forall v, v <> u -> x_begun_at xs' v = x_begun_at xs v /\ x_ended_at xs' v = x_ended_at xs v.
+Proof. exact lose_counts. Qed.
+Print Assumptions C16_transport_loss_counts.
+
+(* A cleanup tick opens nothing; it ends every connection of a backend outside the table and
+   none of a backend inside, with or without losses before. *)
+Theorem C16_tick_transport_counts : forall ng un xs u, xinv xs ->
+  let xs' := xstep ng un xs (XOp CleanupTick) in
+  x_begun_at xs' u = x_begun_at xs u /\
+  x_ended_at xs' u = (if mem u (table_urls (s_tbl (x_st xs))) then x_ended_at xs u else x_begun_at xs u).
+Proof. exact tick_counts. Qed.
+Print Assumptions C16_tick_transport_counts.
+
+(* call; the backend loses the connection; call: served on the same channel 0 after a second
+   transport was established, one dial in all, the hypotheses of the theorems above hold *)
+Theorem C16_transport_loss_nonvacuous :
+  let xs1 := xrun false ex_reach (x_init ex_tbl) [XOp (Call [] (bs "/pkg.Svc/Get") 0)] in
+  let xs2 := xrun false ex_reach (x_init ex_tbl) [XOp (Call [] (bs "/pkg.Svc/Get") 0); XLose ex_u] in
+  let xs3 := xrun false ex_reach (x_init ex_tbl) ex_lose_hist in
+  call_conn false (x_st (x_init ex_tbl)) [] (bs "/pkg.Svc/Get") 0 = Some (ex_u, 0) /\
+  x_up xs1 = [(0, ex_u)] /\ x_up xs2 = [] /\ (x_begun_at xs2 ex_u, x_ended_at xs2 ex_u) = (1, 1) /\
+  call_conn false (x_st xs2) [] (bs "/pkg.Svc/Get") 0 = Some (ex_u, 0) /\
+  undisturbed false ex_u (step false (x_st (x_init ex_tbl)) (Call [] (bs "/pkg.Svc/Get") 0)) (xproj [XLose ex_u]) /\
+  x_up xs3 = [(0, ex_u)] /\ (x_begun_at xs3 ex_u, x_ended_at xs3 ex_u) = (2, 1) /\
+  count_dials (s_pool (x_st xs3)) ex_u = 1 /\ p_pool (s_pool (x_st xs3)) = [(ex_u, 0)].
+Proof. exact transport_loss_nonvacuous. Qed.
+Print Assumptions C16_transport_loss_nonvacuous.
